@@ -268,7 +268,7 @@ def analysis_level(chk, rng):
                 for scenario in ('bad-first', 'bad-between', 'bad-mid-container', 'bad-metadata-first'):
                     prec = 'float64' if (ki + len(scenario)) % 2 else 'float32'
                     rs = np.random.RandomState(chk.seed % 1000 + ki * 17 + len(scenario))
-                    a, mk = pl.build(kind, mode, prec)
+                    a, mk = pl.build(kind, mode, prec, convergence_step=(7 if (mode == 'attack' and scenario != 'bad-first') else None))
                     pp = pl.preprocesses()
                     bs = int(rs.randint(2, 5))
                     scared.set_batch_size(bs)
@@ -302,13 +302,24 @@ def analysis_level(chk, rng):
                              'bad-mid-container': [('ok', good1, s1, v1, n1), ('mid', mid, s2, v2, min(bs, n2)), ('ok', good1, s1, v1, n1)],
                              'bad-metadata-first': [('bad', nometa), ('ok', good2, s2, v2, n2)]}[scenario]
                     bad = None
+                    def outputs():
+                        conv = getattr(a, 'convergence_traces', None)
+                        return (None if a.results is None else np.array(a.results, copy=True), None if getattr(a, 'scores', None) is None else np.array(a.scores, copy=True),
+                                None if conv is None else np.array(conv, copy=True))
+
+                    def same(x, y):
+                        return all((p is None and q is None) or (p is not None and q is not None and p.shape == q.shape and np.array_equal(p, q, equal_nan=True)) for p, q in zip(x, y))
                     for st_ in steps:
                         before = int(a.processed_traces)
+                        out_before = outputs()
                         try:
                             a.run(st_[1])
                             raised = False
                         except Exception as ex:           # noqa
                             raised = True
+                        if raised and st_[0] == 'bad' and not same(out_before, outputs()):
+                            bad = 'a refused run leaves results, scores and convergence traces as they were'
+                            break
                         if st_[0] == 'ok':
                             if raised:
                                 bad = 'a valid run after a rejected one is accepted'
